@@ -54,7 +54,8 @@ def build(tables_present, versions_variant, exprs_on, ff):
     if "peExportedSymbols" in tables_present:
         _auxdata.pe_exported_symbols.set(m, [S["K2"], S["A"]])
     if "symbolForwarding" in tables_present:
-        _auxdata.symbol_forwarding.set(m, {S["A"]: S["K1"], S["K2"]: S["B"], S["K1"]: S["K2"]})
+        # many-to-one: K1 and K2 both forward to B; A forwards to K1 and is itself a target (of B)
+        _auxdata.symbol_forwarding.set(m, {S["A"]: S["K1"], S["K2"]: S["B"], S["K1"]: S["B"], S["B"]: S["A"]})
     if "cfiDirectives" in tables_present:
         _auxdata.cfi_directives.set(m, {
             gtirb.Offset(blocks[0], 0): [(".cfi_startproc", [], NULL_UUID), (".cfi_personality", [0x9B], S["A"]), (".cfi_lsda", [0x1B], S["K1"])],
